@@ -116,7 +116,8 @@ def events(effs):
                     out.append({"e": "os_other", "op": s, "at": e["at"]})
             elif recv == FR:
                 if s == "push":
-                    out.append({"e": "frame_push", "val": rest[0], "at": e["at"]})
+                    from ..symex import resolve_built
+                    out.append({"e": "frame_push", "val": resolve_built(rest[0], effs), "at": e["at"]})
                 elif s == "pop":
                     out.append({"e": "frame_pop", "res": res, "val": val, "at": e["at"]})
                 elif s in ("last", "last_mut"):
